@@ -1,3 +1,55 @@
-"""C13 scraper for the d backend (placeholder, filled in below)."""
+"""C13 scraper for the D backend:  @wasmImport!("m", "n") / @wasmExport!("n"), then pragma(mangle, ..), then
+   [static] [private] extern(C) <ret> <name>(<params>) [attrs] ; | {"""
+import re
+from c13_common import mk, line_of, word_counts, text_files, split_params, mark_referenced
+
+DECL = re.compile(r'@wasm(?P<k>Import|Export)!\((?P<args>[^\n]*)\)[ \t]*\n(?:[ \t]*pragma\([^\n]*\)[ \t]*\n)?[ \t]*(?P<quals>(?:(?:static|private|public|package|export)\s+)*)(?:extern\s*\(C\)\s+)?(?P<ret>[^\n(]*?)\s*(?P<f>[A-Za-z_][A-Za-z0-9_]*)\s*\((?P<p>[^)]*)\)', re.M)
+TY = {"uint": "i", "int": "i", "size_t": "i", "ptrdiff_t": "i", "bool": "i", "ubyte": "i", "byte": "i", "ushort": "i", "short": "i",
+      "char": "i", "dchar": "i", "ulong": "I", "long": "I", "float": "f", "double": "F"}
+
+
+def core_ty(t):
+    t = re.sub(r"\b(const|in|scope|ref|immutable)\b", "", t).strip()
+    if t.endswith("*"):
+        return "i"
+    return TY.get(t.split()[0] if t.split() else t, "?")
+
+
+def sig_of(params, ret):
+    ps = ""
+    for p in split_params(params):
+        if p.strip().endswith("*") or re.search(r"\*\s*[A-Za-z_][A-Za-z0-9_]*$", p.strip()):
+            ps += "i"
+            continue
+        toks = re.sub(r"\b(const|in|scope|ref|immutable)\b", "", p).split()
+        ps += TY.get(toks[0], "?") if toks else "?"
+    ret = ret.strip()
+    rs = "" if ret == "void" else core_ty(ret)
+    s = ps + ">" + rs
+    return "?" if "?" in s else s
+
+
 def scrape(files):
-    return []
+    out = []
+    wcs = {}
+    ds = text_files(files, [".d"])
+    for fn, t in ds.items():
+        n_attr = len(re.findall(r"^\s*@wasm(?:Import|Export)!\(", t, flags=re.M))
+        got = 0
+        wc = wcs[fn] = word_counts([t])
+        for m in DECL.finditer(t):
+            got += 1
+            strs = re.findall(r'"([^"]*)"', m.group("args"))
+            sig = sig_of(m.group("p"), m.group("ret"))
+            ln = line_of(t, m.start())
+            if m.group("k") == "Import":
+                if len(strs) != 2:
+                    out.append(mk("I", "?", m.group("args"), "?", m.group("f"), fn, ln))
+                    continue
+                out.append(mk("I", strs[0], strs[1], sig, m.group("f"), fn, ln))
+                out[-1]["_scope"] = fn
+            else:
+                out.append(mk("E", "", strs[0] if strs else m.group("args"), sig, m.group("f"), fn, ln))
+        if got != n_attr:
+            out.append(mk("I", "?", "<%d @wasmImport/@wasmExport attributes not parsed in %s>" % (n_attr - got, fn), "?", "?", fn, 0))
+    return mark_referenced(out, wcs)
